@@ -1,7 +1,7 @@
 SPECIFICATION SpecR
 CONSTANTS
   Accts = {"A1"}
-  BankNames = {"B1", "B2", "B3", "B4"}
+  BankNames = {"B1", "B2", "B3", "B4", "B7"}
   Amounts = {1000003}
   Ticks = {3600}
   StaleTicks = {30, 3600}
